@@ -32,6 +32,17 @@ def step (_ : Unit) (fields : List String) (impl : String) : Unit × Reply :=
       let ok := i > 0 && k > 0 && holdsX k o
       ((), ⟨"accepted-by-model=" ++ boolStr ok, ok, true, ok, "-"⟩)
     | _, _ => ((), .bad)
+  | ["tlsrun", i, t] =>
+    -- keepalives of a STARTTLS session: they arrive inside the TLS session (at most one per tick, not far fewer),
+    -- and the server's TLS layer never saw anything that made it give the stream up
+    match i.toNat?, t.toNat? with
+    | some i, some ticks =>
+      let m := kvs impl
+      let p := nat m "tlspings"
+      let ok := i > 0 && (m.lookup "srvalive") == some "true" && (m.lookup "secure") == some "true" &&
+                decide (p ≤ ticks + 1) && decide (ticks ≤ p + 2 + ticks / 3)
+      ((), ⟨"accepted-by-model=" ++ boolStr ok, ok, true, ok, "-"⟩)
+    | _, _ => ((), .bad)
   | ["xclose", i, a] =>
     match i.toNat?, a.toNat? with
     | some i, some _ =>
